@@ -69,6 +69,10 @@ func main() {
 		}
 		p := run.NewPart(id, engine, tier)
 		p.Rule = "one execution = one complete schedule of the scenario on the real code under the controlled scheduler; states = distinct happens-before state keys (HB-cached mode) or executions (bounded mode); non-trivial = distinct (scenario, outcome) pairs"
+		p.Assume("scheduling points are the sync.Mutex/RWMutex/WaitGroup/Cond, x/sync semaphore, go-statement and context.WithTimeout operations that engine/instr routes to the shim, plus every store Add/Get; sync/atomic and raw channel operations are not intercepted (a thread blocking on one is reported as uncontrollable, never as a violation)",
+			"sequential consistency; data-race freedom is judged by the Go race detector over the bounded schedules of the -race part, through the shim's happens-before annotations (validated by the litmus programs before every run)",
+			"happens-before state caching is sound for data-race-free code; it is switched off for a scenario as soon as a race is reported",
+			"RWMutex is modelled writer-preferring in two steps (announce, acquire) as in the Go runtime; Cond.Signal wakes waiters in FIFO order; virtual timers fire last on the default schedule and at every earlier point as alternatives")
 		jd := ""
 		if len(os.Args) > 5 {
 			jd = os.Args[5]
